@@ -1,4 +1,5 @@
 import Netpoll.Buf.OwnerLemmas17
+import Netpoll.Buf.OwnerCov
 /-! Lemmas about the ownership ledger, part 18: from the three invariants (typing, tokens, reference counts) to
 "the block under a live struct has not been freed". -/
 namespace Netpoll.Buf.Own
@@ -82,12 +83,6 @@ theorem Good.recycled_once {cfg : Cfg} {s : Ledger} (h : Good cfg s) {i : Nat} {
 
 /-! ### `Cov` as an executable check (for the non-vacuity examples and the driver) -/
 
-def ackSafeB (m : Mem) (b : Buf) : Bool :=
-  (b.chain.drop (b.f + 1)).all fun i =>
-    match m.nodes[i]? with
-    | some nd => nd.refer == 1
-    | none => true
-
 theorem ackSafeB_sound {m : Mem} {b : Buf} (h : ackSafeB m b = true) : AckSafe m b := by
   intro i hi nd hn
   unfold ackSafeB at h
@@ -95,17 +90,6 @@ theorem ackSafeB_sound {m : Mem} {b : Buf} (h : ackSafeB m b = true) : AckSafe m
   have := h i hi
   rw [hn] at this
   simpa using this
-
-def covB (s : Ledger) : Op → Bool
-  | .wdir _ _ _ remain => !decide (remain > 0)
-  | .ack id _ =>
-    match s.getBuf id with
-    | some b => ackSafeB s.mem b
-    | none => true
-  | .new id _ => (s.getBuf id).isNone
-  | .slice id _ nid => (s.getBuf nid).isNone && nid != id
-  | .app id did => id != did
-  | _ => true
 
 theorem covB_sound {s : Ledger} {op : Op} (h : covB s op = true) : Cov s op := by
   cases op <;> simp only [covB, Cov] at h ⊢ <;> try trivial
@@ -119,12 +103,6 @@ theorem covB_sound {s : Ledger} {op : Op} (h : covB s op = true) : Cov s op := b
     simp only [Bool.and_eq_true, Option.isNone_iff_eq_none, bne_iff_ne] at h
     exact h
   case app => simpa using h
-
-def allStepsB (cfg : Cfg) (P : Ledger → Op → Bool) : Ledger → List Op → Bool
-  | _, [] => true
-  | s, op :: ops => P s op && match step cfg s op with
-    | none => true
-    | some s' => allStepsB cfg P s' ops
 
 theorem allStepsB_sound {cfg : Cfg} {P : Ledger → Op → Prop} {Pb : Ledger → Op → Bool} (hp : ∀ s op, Pb s op = true → P s op) :
     ∀ (ops : List Op) (s : Ledger), allStepsB cfg Pb s ops = true → AllSteps cfg P s ops
